@@ -110,6 +110,7 @@ type Stats struct {
 	LemmaQueries  int
 	ModelHits     int
 	Probed        int
+	ByteDecided   int
 	ForkSites     map[string]int
 }
 
@@ -125,6 +126,7 @@ type Options struct {
 	PermuteMaps   bool
 	CallDepth     int
 	FuncBudgetS   float64 // wall-clock budget per harness function (0 = none)
+	NoByteDomain  bool    // send single-byte feasibility questions to the solver too
 	SolverLog     string
 	CheckRewrites bool
 }
@@ -145,6 +147,8 @@ type Engine struct {
 	sdepth    int // number of decisions whose constraint is on the solver stack
 	pc        []*term.Term
 	pcLits    map[*term.Term]bool
+	byteDom   map[*term.Term]*[4]uint64        // per 8-bit variable: values allowed by the single-variable conjuncts of the path condition
+	entangled map[*term.Term]bool              // variables that occur in a conjunct together with another variable
 	mdl       map[string]uint64                // a model of the current path condition (nil = none cached)
 	altMdl    map[*term.Term]map[string]uint64 // models found for alternatives not (yet) taken
 	mdlMemo   map[*term.Term]uint64
@@ -163,6 +167,7 @@ type Engine struct {
 	inBase    bool
 	tags      map[string]bool
 
+	constCache   map[*ssa.Const]Value
 	globals      map[*ssa.Global]*Object
 	finfo        map[*ssa.Function]*funcInfo
 	intrinsic    map[string]intrinsicFn
@@ -206,6 +211,9 @@ func New(prog *ssa.Program, opt Options) (*Engine, error) {
 	if opt.CallDepth == 0 {
 		opt.CallDepth = 400
 	}
+	if os.Getenv("GOSYM_NO_BYTE_DOMAIN") != "" {
+		opt.NoByteDomain = true
+	}
 	s, err := smt.New(opt.SolverKind, opt.TimeoutMs)
 	if err != nil {
 		return nil, err
@@ -218,6 +226,7 @@ func New(prog *ssa.Program, opt Options) (*Engine, error) {
 	}
 	e := &Engine{Prog: prog, Opt: opt, S: s,
 		Viol:       map[string]*Violation{},
+		constCache: map[*ssa.Const]Value{},
 		globals:    map[*ssa.Global]*Object{},
 		finfo:      map[*ssa.Function]*funcInfo{},
 		initDone:   map[*ssa.Package]bool{},
@@ -373,6 +382,8 @@ func (e *Engine) resetPath() {
 	e.tpos = 0
 	e.pc = e.pc[:0]
 	e.pcLits = map[*term.Term]bool{}
+	e.byteDom = map[*term.Term]*[4]uint64{}
+	e.entangled = map[*term.Term]bool{}
 	e.mdl = nil
 	e.altMdl = map[*term.Term]map[string]uint64{}
 	e.nondets = e.nondets[:0]
@@ -524,9 +535,91 @@ func (e *Engine) assertDecision(idx int, c *term.Term) {
 }
 
 // addPC records a path-condition conjunct and its literals.
+// soleByteVar returns the variable of c if c mentions exactly one variable
+// and that variable is at most 8 bits wide.
+func soleByteVar(c *term.Term) (*term.Term, int) {
+	set := map[*term.Term]bool{}
+	c.Vars(set, map[*term.Term]bool{})
+	if len(set) != 1 {
+		return nil, len(set)
+	}
+	for v := range set {
+		if v.W >= 1 && v.W <= 8 {
+			return v, 1
+		}
+	}
+	return nil, 1
+}
+
+func (e *Engine) domOf(v *term.Term) *[4]uint64 {
+	d := e.byteDom[v]
+	if d == nil {
+		d = &[4]uint64{}
+		for i := 0; i < 1<<uint(v.W); i++ {
+			d[i/64] |= 1 << uint(i%64)
+		}
+		e.byteDom[v] = d
+	}
+	return d
+}
+
+// noteDomain maintains the exact value set of byte variables that are only
+// constrained on their own; a conjunct over several variables entangles them
+// and hands them back to the solver.
+func (e *Engine) noteDomain(c *term.Term) {
+	v, n := soleByteVar(c)
+	if v == nil {
+		if n > 1 {
+			set := map[*term.Term]bool{}
+			c.Vars(set, map[*term.Term]bool{})
+			for x := range set {
+				e.entangled[x] = true
+			}
+		}
+		return
+	}
+	if e.entangled[v] {
+		return
+	}
+	d := e.domOf(v)
+	env := map[string]uint64{}
+	for i := 0; i < 1<<uint(v.W); i++ {
+		if d[i/64]&(1<<uint(i%64)) == 0 {
+			continue
+		}
+		env[v.Name] = uint64(i)
+		if term.Eval(c, env, map[*term.Term]uint64{}) != 1 {
+			d[i/64] &^= 1 << uint(i%64)
+		}
+	}
+}
+
+// byteFeasible decides feasibility of c by enumeration when c only mentions
+// one un-entangled byte variable (exact: the rest of the path condition is
+// satisfiable independently of that variable).
+func (e *Engine) byteFeasible(c *term.Term) (bool, bool) {
+	v, _ := soleByteVar(c)
+	if v == nil || e.entangled[v] {
+		return false, false
+	}
+	d := e.domOf(v)
+	env := map[string]uint64{}
+	for i := 0; i < 1<<uint(v.W); i++ {
+		if d[i/64]&(1<<uint(i%64)) == 0 {
+			continue
+		}
+		env[v.Name] = uint64(i)
+		if term.Eval(c, env, map[*term.Term]uint64{}) == 1 {
+			return true, true
+		}
+	}
+	return false, true
+}
+
 func (e *Engine) addPC(c *term.Term) {
 	e.pc = append(e.pc, c)
 	e.noteLit(c, true, 0)
+	e.noteDomain(c)
 	// keep a cached model only if it still satisfies the path condition
 	if e.mdl != nil && !e.evalUnder(e.mdl, c) {
 		e.mdl = nil
@@ -609,6 +702,12 @@ func (e *Engine) feasible(c *term.Term) (bool, bool) {
 		e.Stats.ModelHits++
 		return true, true
 	}
+	if !e.Opt.NoByteDomain {
+		if ok, decided := e.byteFeasible(c); decided {
+			e.Stats.ByteDecided++
+			return ok, true
+		}
+	}
 	r := e.checkWith(c)
 	switch r {
 	case smt.Sat:
@@ -643,6 +742,7 @@ func (e *Engine) checkWith(c *term.Term) smt.Result {
 	}
 	e.lastModel = nil
 	if !mul {
+		e.S.Predefine(c)
 		e.S.Push()
 		e.S.Assert(c)
 		r := e.S.Check()
